@@ -137,18 +137,19 @@ def num_value(r, t, null_rate=0.2):
 
 # ---------------------------------------------------------------------------------------------- (a) fragments
 def fragment_cases(r, n):
+    """every aggregate function on every value type it applies to, the preset enumerated rules, and n random
+    enumerated rules (some not expressible in the grammar: no clause at all, only a default)."""
+    plan = [(Rule('agg', fn=fn), vt) for fn in AGG for vt in (['Integer', 'Number', 'String'] if fn in ('min', 'max') else ['Integer', 'Number'])]
+    plan += [(CONF, 'String'), (PRIO, 'String'), (NONASSOC, 'String')]
+    plan += [(enum_rule(r, grammatical=r.random() < 0.7), 'String') for _ in range(n)]
     out = []
-    for i in range(n):
-        kind = r.choice(['enum', 'enum', 'agg'])
-        if kind == 'enum':
-            rule, vt = enum_rule(r, grammatical=r.random() < 0.7), 'String'
-            val = lambda: text_value(r, 0.25)  # noqa: E731
+    for rule, vt in plan:
+        if vt == 'String':
+            alpha = ALPHA + (['N'] if rule is CONF else [])
+            val = lambda alpha=alpha: text_value(r, 0.25, alpha)  # noqa: E731
         else:
-            fn = r.choice(AGG)
-            vt = r.choice(['Integer', 'Number', 'String'] if fn in ('min', 'max') else ['Integer', 'Number'])
-            rule = Rule('agg', fn=fn)
-            val = (lambda: text_value(r, 0.25)) if vt == 'String' else (lambda: num_value(r, vt, 0.25))
-        pairs = [(val(), val()) for _ in range(r.choice([6, 10]))]
+            val = lambda vt=vt: num_value(r, vt, 0.25)  # noqa: E731
+        pairs = [(val(), val()) for _ in range(r.choice([8, 12]))]
         groups = [[val() for _ in range(k)] for k in [0, 1, 1, 2, 2, 3, 3, 4, 5, r.choice([6, 9])]]
         if r.random() < 0.3:
             groups.append([None] * r.choice([1, 2, 3]))
